@@ -388,6 +388,10 @@ class Rule:
     lazy: bool
     pattern: str
     variants: List[Tuple[DFA, Lookahead]] = field(default_factory=list)
+    # a leading look-behind of one character: the alphabet classes allowed directly before the token (None: no condition);
+    # `behind_start` says whether the token may stand at the very beginning of the input
+    behind: Optional[FrozenSet[int]] = None
+    behind_start: bool = True
 
 
 def _split_trailing(sub, alpha: Alphabet) -> Tuple[list, Lookahead]:
@@ -461,6 +465,18 @@ def compile_rule(pattern: str, flags: Sequence[str] | int, alpha: Alphabet) -> R
     fv = flags if isinstance(flags, int) else flags_value(flags)
     sub = parse(pattern, fv)
     inner = _unwrap(list(sub))
+    # a leading one-character look-behind: a condition on what stands before the token, not part of its text
+    behind: Optional[FrozenSet[int]] = None
+    behind_start = True
+    inner = list(inner)
+    while inner and inner[0][0] in (sre_c.ASSERT, sre_c.ASSERT_NOT) and inner[0][1][0] == -1:
+        op0, (_, p0) = inner.pop(0)
+        cls0 = frozenset(c for c in _lookahead_symbols(p0, alpha) if c != END)
+        every = frozenset(range(alpha.n))
+        allowed0 = cls0 if op0 is sre_c.ASSERT else every - cls0
+        behind = allowed0 if behind is None else behind & allowed0
+        if op0 is sre_c.ASSERT:
+            behind_start = False
     # a trailing assertion shared by the whole rule
     body, outer_look = _split_trailing(inner, alpha)
     body = _unwrap(body) if len(body) == 1 else body
@@ -483,7 +499,7 @@ def compile_rule(pattern: str, flags: Sequence[str] | int, alpha: Alphabet) -> R
         union = product_dfa(union, d, lambda x, y: x or y)
     looks = {(v[1].allowed, v[1].boundary) for v in variants}
     look = variants[0][1] if len(looks) == 1 else Lookahead()
-    return Rule(union, look, lazy, pattern, variants)
+    return Rule(union, look, lazy, pattern, variants, behind, behind_start)
 
 
 def _reject_inner_assertions(op, av):
@@ -586,6 +602,19 @@ def symbols_used(d: DFA) -> Set[int]:
                     reach.add(t)
                     todo.append(t)
     return used
+
+
+def last_symbols(d: DFA) -> Set[int]:
+    """Alphabet classes an accepted word can end with."""
+    fwd = {d.start}
+    todo = [d.start]
+    while todo:
+        s0 = todo.pop()
+        for t in d.trans[s0]:
+            if t not in fwd:
+                fwd.add(t)
+                todo.append(t)
+    return {c for s0 in fwd for c, t in enumerate(d.trans[s0]) if t in d.accept}
 
 
 def first_symbols(d: DFA) -> Set[int]:
